@@ -75,6 +75,10 @@ class HangAlarm(BaseException):
     pass
 
 
+class HarnessStuck(BaseException):
+    """Wall-clock limit of one schedule: a failure of the machinery, never a verdict."""
+
+
 def parse_records(data: bytes) -> list[tuple[int, int, int]] | None:
     """[(start, end, type)] of the TLS records in data, None unless data is whole records."""
     out = []
@@ -290,6 +294,10 @@ class Run:
             await self._side_main(side)
         except HangAlarm:
             self.emit(ev="hang", s=side.name)
+            side.state = "done"
+            self._rest()
+        except HarnessStuck:
+            self.flags["stuck"] = True
             side.state = "done"
             self._rest()
 
@@ -559,8 +567,7 @@ def _alarm(signum: int, frame: Any) -> None:
 
 
 def _stuck(signum: int, frame: Any) -> None:
-    raise RuntimeError("C17 harness: schedule made no progress within the wall-clock limit "
-                       "(nothing was burning CPU: not a verdict about the library)")
+    raise HarnessStuck()
 
 
 def run_schedule(sched: dict, cpu_budget_s: float = 10.0, wall_budget_s: float = 600.0) -> dict:
@@ -580,7 +587,13 @@ def run_schedule(sched: dict, cpu_budget_s: float = 10.0, wall_budget_s: float =
     signal.setitimer(signal.ITIMER_REAL, wall_budget_s)
     try:
         try:
-            return anyio.run(run.main)
+            res = anyio.run(run.main)
+            if run.flags.get("stuck"):
+                raise HarnessStuck()
+            return res
+        except HarnessStuck:
+            raise RuntimeError(f"C17 harness: schedule not finished within {wall_budget_s} s of wall-clock "
+                               "time without burning CPU (machinery, not a verdict)") from None
         except HangAlarm:
             run.events.append({"ev": "hang", "s": "c"})
             return {"events": run.events, "final": None, "flags": run.flags,
